@@ -134,6 +134,7 @@ def analyse(steps, trailing_notes=()):
     stats = dict(sends=0, sends_rejected=0, recv_bunches=0, recv_groups=0, status=0, acks=0, naks=0, outs=0, drops=0, accepts=0, connects=0, skipacks=0,
                  replays=0, hostile=0, max_out=0, close_reasons={}, ret_codes={}, groups_max=0, large=0, timeouts=0)
     peers = {}
+    cfg_travel, cfg_magic_bits, lsn_ids = 0, 0, set()
     sent = {}  # (src, ch, reliable) -> list of dict
     sent_all = {}  # src -> list (all accepted sends in order)
     recvd = {}  # (dst, ch, reliable) -> list of delivered bunch dicts
@@ -510,6 +511,43 @@ def analyse(steps, trailing_notes=()):
                         if int(r[2]) != cursor + n:
                             V.append(Violation("C12", "readback", "%s moved the cursor from %d to %s" % (tok, cursor, r[2]), st))
                     cursor = int(r[2])
+        if op == "bbs":
+            # ... and against what the script WROTE (rule C12/roundtrip): when every writer of the script succeeded, the k-th reader of the matching
+            # kind must return the k-th value written (a run of bits: exactly those source bits, nothing of the source byte above them)
+            res = [e for e in st.events if e.startswith("bbs")]
+            if res and "end" in a[1:]:
+                outs = res[0].split()[1:]
+                toks = list(a[1:])
+                ie = toks.index("end")
+                wr = [(t, o) for t, o in zip(toks[:ie], outs[:ie]) if not t.startswith("cp:")]
+                rdp = [(t, o) for t, o in zip(toks[ie + 1:], outs[ie + 1:]) if not t.startswith("cp:")]
+                all_ok = len(outs) > ie and outs[ie].startswith("end:1:") and all(o.split(":")[0] == "1" or (t.startswith("wi:") and int(t.split(":")[1]) >= int(t.split(":")[2])) for t, o in wr)
+                if all_ok:
+                    wvals = [t for t, o in wr if o.split(":")[0] == "1"]
+                    for wt, (rt, ro) in zip(wvals, rdp):
+                        wf, rf, r = wt.split(":"), rt.split(":"), ro.split(":")
+                        pair = (wf[0], rf[0])
+                        if len(r) != 3:
+                            break
+                        want = None
+                        if pair == ("wb", "rb"):
+                            want = str(1 if int(wf[1]) % 256 else 0)
+                        elif pair == ("wi", "ri") and wf[2] == rf[1]:
+                            want = wf[1]
+                        elif pair == ("ww", "ri") and wf[2] == rf[1] and int(wf[2]) & (int(wf[2]) - 1) == 0:
+                            want = str(int(wf[1]) % int(wf[2]))
+                        elif pair == ("wp", "rp") or pair == ("wu", "ru"):
+                            want = wf[1]
+                        elif pair in (("ws", "rs"), ("wy", "ry")) and wf[1] == rf[1]:
+                            nb = int(wf[1]) if pair[0] == "ws" else 8 * int(wf[1])
+                            want = payload_hash(int(wf[2]), nb, maxbytes=1 << 20)
+                        elif pair in (("ww", "ri"),):
+                            continue
+                        else:
+                            break                     # the reads of this script are not the matching ones from here on
+                        if r[0] != "1" or r[1] != want:
+                            V.append(Violation("C12", "roundtrip", "%s wrote, the matching %s returned %s (expected 1:%s)" % (wt, rt, ro, want), st))
+                            break
         if op == "bbbits":
             stats["unit"] = stats.get("unit", 0) + 1
             res = [e for e in st.events if e.startswith("bb")]
@@ -563,6 +601,23 @@ def analyse(steps, trailing_notes=()):
             cs = [e for e in st.events if e.startswith("cstate")]
             if cs and cs[0] != "cstate same":
                 V.append(Violation("C20", "peek-state", "peek changed the connection", st))
+        if op == "cfg" and a and a[0] == "travel":
+            cfg_travel = int(a[1])
+        if op == "cfg" and a and a[0] == "magic":
+            cfg_magic_bits = int(a[1])
+        if op == "reset":
+            cfg_travel, cfg_magic_bits = 0, 0
+        if op == "ldlv" and cfg_magic_bits == 0 and any(x is st for x, _ in expectations):
+            # (only the steps the listener sessions tag with an expectation: genuine initial packets and responses in the current wire format, answered
+            # by a challenge or an ack; restart requests travel in the original format, which has no session id)
+            # the reply to a genuine client datagram starts with the 2-bit session id = GlobalNetTravelCount mod 4 as configured NOW - it does not
+            # depend on what the listener answered before (C08: every later datagram is answered as it would have been without that traffic)
+            for ev in st.events:
+                t = ev.split()
+                if ev.startswith("out ") and len(t) > 5 and lsn_ids and int(t[1]) in lsn_ids and (int(t[5]) & 3) != cfg_travel % 4:
+                    V.append(Violation("C08", "session", "reply carries session id %d, the configured travel count is %d" % (int(t[5]) & 3, cfg_travel), st))
+        if op == "listener" and a:
+            lsn_ids.add(int(a[0]))
         # listener statelessness
         if op in ("lraw", "lmut", "ldlv", "route"):
             acc = [e for e in st.events if e.startswith("accept ")]
